@@ -10,7 +10,7 @@ LEVEL = "exploration"
 MANIFEST = dict(
     engine="E1-jobgen+networkx", engine_path="vlib/jobgen.py",
     kind="generated job DAGs -> real scheduler.graph.precompute under an icontract post-condition evaluated against a networkx reference",
-    technique="runtime contract (icontract.ensure on the real precompute) whose condition recomputes components, sources, edge maps, depth, value and the nearest-common-descendant distance with an independent networkx reference on every generated job; plus, at a size no full precompute can be afforded at, the real decompose on components of 1500-4000 tasks (chains, ladders, zig-zags) against union-find",
+    technique="runtime contract (icontract.ensure on the real precompute) whose condition recomputes components, sources, edge maps, depth, value and the nearest-common-descendant distance with an independent networkx reference on every generated job, and again after the job's edge list was edited in place; plus, at a size no full precompute can be afforded at, the real decompose on components of 1500-4000 tasks (chains, ladders, zig-zags) against union-find",
     text="Every generated job (chains, diamonds, layered/triangular DAGs, several components, isolated tasks, multi-edges, multi-output tasks, up to 60 tasks) is passed to the real precompute; the post-condition compares every field of the Preschedule with the reference. Held = all post-condition evaluations true; zero evaluations = inconclusive.",
     note="python fallback of nearest_common_descendant is what runs (coptrs is not installed); if it were, its answers would be compared the same way.",
 )
